@@ -63,6 +63,23 @@ pub fn rec(v: Value) {
     });
 }
 
+/// Temporarily removes the tracer (records are dropped); give the result to `resume`.
+pub fn suspend() -> Option<Tracer> {
+    TRACER.with(|t| t.borrow_mut().take())
+}
+pub fn resume(saved: Option<Tracer>) {
+    TRACER.with(|t| *t.borrow_mut() = saved);
+}
+thread_local! {
+    static DEFAULT_MASK: std::cell::Cell<&'static str> = const { std::cell::Cell::new("p") };
+}
+pub fn set_default_mask(m: &'static str) {
+    DEFAULT_MASK.with(|c| c.set(m));
+}
+pub fn install_hooks_default() {
+    install_hooks(DEFAULT_MASK.with(|c| c.get()));
+}
+
 pub fn is_open() -> bool {
     TRACER.with(|t| t.borrow().is_some())
 }
